@@ -74,7 +74,7 @@ pub fn gen(m: Mode, tier: &str, seed: u64, idx: u64, base: u64) -> Spec {
     if m == Mode::C13 {
         // lifetime-free; prefer coherent programs (a few redraws)
         for k in 0..12u64 {
-            let bad = has_lifetimes(&world) || (k < 8 && wgen::parse_world(&world).map(|(p, _)| wgen::has_overlapping_impls(&p)).unwrap_or(false));
+            let bad = has_lifetimes(&world) || (k < 1 && wgen::parse_world(&world).map(|(p, _)| wgen::has_overlapping_impls(&p)).unwrap_or(false));
             if !bad {
                 break;
             }
